@@ -118,6 +118,8 @@ def scalar_mult(x, y, out=None):
     else:
         if _share_storage(out, x) or _share_storage(out, y):
             raise RuntimeError("Can't overwrite an argument!")
+        if out.shape[1:] != torch.broadcast_shapes(real(x).shape, real(y).shape):
+            raise ValueError("out does not have the shape of the product!")
 
     torch.mul(real(x), real(y), out=real(out)).sub_(torch.mul(imag(x), imag(y)))
     torch.mul(real(x), imag(y), out=imag(out)).add_(torch.mul(imag(x), real(y)))
